@@ -21,6 +21,8 @@ MOMENTS = {
 RATIOS = ["1", "1/2", "4/5", "1/4"]
 EPS = ["0", "1/100", "1/8", "1/4", "1/2"]
 LOSS_RANGES = [("0", "1"), ("-1", "1"), ("0", "2"), ("1/4", "3/4")]
+# the loss constructors validate nothing: equal and inverted bounds are accepted too (kind "loss" only)
+LOSS_RANGES_ALL = LOSS_RANGES + [("1/2", "1/2"), ("1", "0"), ("3/4", "-1/4"), ("2", "-1")]
 
 
 def fr(x):
@@ -240,8 +242,13 @@ class CHECK(Check):
                   "and one - entry per observed (event, group) pair; gamma+ = r*mean_{e,g}(u) - mean_e(u), gamma- = "
                   "r*mean_e(u) - mean_{e,g}(u); rows without event are inert; bound() is the slack on every entry; "
                   "BoundedGroupLoss/ErrorRate closed forms; for r=1 the + entries equal BaseMetrics' group rate minus "
-                  "overall rate. Tie: translator-lifted expressions (Generated/MomentsSrc.lean) + Moment objects vs the "
-                  "compiled Lean model on generated datasets; independent Fraction oracle decides violations.")
+                  "overall rate; the P(g|e)-weighted sum of an event's + (and -) entries is (r-1)*mean_e(u); gamma is "
+                  "affine in the predictor (gamma of any mixture with weights summing to 1 is the mixture of the gammas); "
+                  "a constant predictor c has (r-1)*c in every entry; the clipped losses lie in the loss object's own "
+                  "[min, max] for ALL bounds on numpy arrays and on pandas Series (two lifted clip semantics, finding F21 "
+                  "witness), and so does every BoundedGroupLoss.gamma entry. Tie: translator-lifted expressions "
+                  "(Generated/MomentsSrc.lean, Generated/LossRange.lean) + Moment / loss objects vs the compiled Lean "
+                  "model on generated datasets; independent Fraction oracle decides violations.")
     design_ref = "DESIGN.md section 4, C06"
     quick_cases = 2000
     thorough_cases = 30000
@@ -252,7 +259,8 @@ class CHECK(Check):
             "the five parity moments x {difference_bound, ratio_bound in {1,1/2,4/5,1/4} with slack, default bound}, "
             "hard or dyadic soft predictions in [0,1], containers list/ndarray/float ndarray/Series/DataFrame, predictor "
             "output (n,), (n,1) or Series; plus BoundedGroupLoss/MeanLoss with Square/Absolute/ZeroOne loss on dyadic "
-            "labels, ErrorRate with costs, and malformed configurations (both bounds, ratio outside (0,1], bad costs, "
+            "labels, the loss objects themselves (eval on ndarrays and on Series, min/max attributes, gamma) with ordered, "
+            "equal and inverted bounds, ErrorRate with costs, and malformed configurations (both bounds, ratio outside (0,1], bad costs, "
             "non-binary labels) that must be rejected. distinct = distinct full case; non-trivial = at least one "
             "(event, group) pair observed / a loss or cost case with >= 2 rows; thorough additionally enumerates all "
             "label/group/stratum assignments of 4 rows for TPR/FPR/EO")
@@ -276,6 +284,17 @@ class CHECK(Check):
                 case.update(gen_dataset(rng, tier))
                 case.update(gen_bounds(rng))
                 yield case
+            elif r < 0.80:
+                n = rng.choice([1, 2, 3, 5, 8])
+                lo, hi = rng.choice(LOSS_RANGES_ALL)
+                loss = rng.choice(["square", "absolute", "zeroone"])
+                if loss == "zeroone":
+                    lo, hi = "0", "1"
+                ng = rng.choice([1, 2])
+                yield {"kind": "loss", "loss": loss, "lo": lo, "hi": hi,
+                       "y": [str(F(rng.randint(-12, 20), 8)) for _ in range(n)],
+                       "h": [str(F(rng.randint(-12, 20), 8)) for _ in range(n)],
+                       "g": [rng.choice(["a", "b"][:ng]) for _ in range(n)]}
             elif r < 0.86:
                 n = rng.choice([2, 3, 4, 6, 8, 12, 20])
                 lo, hi = rng.choice(LOSS_RANGES)
@@ -317,6 +336,16 @@ class CHECK(Check):
                            "g": [rng.choice(["a", "b"]) for _ in range(n)]}
 
     def exhaustive(self, tier):
+        # the loss objects on a grid of bounds (ordered, equal, inverted) x labels x predictions, both containers
+        vals = ["-1/2", "0", "1/4", "1/2", "1", "3/2"]
+        for loss in ("square", "absolute"):
+            for lo in ("-1/2", "0", "1/2", "1"):
+                for hi in ("-1/2", "0", "1/2", "1"):
+                    yield {"kind": "loss", "loss": loss, "lo": lo, "hi": hi,
+                           "y": [a for a in vals for _ in vals], "h": [b for _ in vals for b in vals],
+                           "g": ["a" if (i // 6) % 2 == 0 else "b" for i in range(36)]}
+        yield {"kind": "loss", "loss": "zeroone", "lo": "0", "hi": "1", "y": [a for a in vals for _ in vals],
+               "h": [b for _ in vals for b in vals], "g": ["a"] * 18 + ["b"] * 18}
         for moment in ("tpr", "fpr", "eo"):
             for y in itertools.product("01", repeat=4):
                 for g in itertools.product("ab", repeat=4):
@@ -329,7 +358,7 @@ class CHECK(Check):
                                "slack": "0"}
 
     def shrink(self, case):
-        if case["kind"] not in ("parity", "bgl", "err"):
+        if case["kind"] not in ("parity", "bgl", "err", "loss"):
             return
         n = len(case["y"])
         for i in range(n):
@@ -374,6 +403,24 @@ class CHECK(Check):
                 return {"errcfg": ["ok"]}
             except ValueError:
                 return {"errcfg": ["exc", "ValueError"]}
+        if kind == "loss":
+            lo, hi = fl(case["lo"]), fl(case["hi"])
+            loss = {"square": lambda: red.SquareLoss(lo, hi), "absolute": lambda: red.AbsoluteLoss(lo, hi),
+                    "zeroone": lambda: red.ZeroOneLoss()}[case["loss"]]()
+            ya = np.array([float(F(v)) for v in case["y"]])
+            pa = np.array([float(F(v)) for v in case["h"]])
+            out = {"min": float(loss.min), "max": float(loss.max), "min_val": float(loss.min_val),
+                   "max_val": float(loss.max_val),
+                   "arr": [float(v) for v in np.asarray(loss.eval(ya, pa)).reshape(-1)],
+                   "ser": [float(v) for v in np.asarray(loss.eval(pd.Series(ya), pd.Series(pa))).reshape(-1)]}
+            if len(case["y"]) >= 2:     # one row is squeezed to 0-d by the input validation
+                m = red.BoundedGroupLoss(loss, upper_bound=0.5)
+                X = pd.DataFrame({"x": list(range(len(ya)))})
+                m.load_data(X, pd.Series(ya), sensitive_features=pd.Series(case["g"]))
+                gam = m.gamma(lambda X: pa)
+                out["gamma_index"] = [str(k) for k in gam.index]
+                out["gamma"] = [float(v) for v in gam.values]
+            return out
         if kind == "badlabels":
             m = getattr(red, MOMENTS[case["moment"]])()
             n = len(case["y"])
@@ -490,6 +537,14 @@ class CHECK(Check):
             return plan
         if kind == "errcfg":
             return [("costs", f"mom.err.costs {case['fp']} {case['fn']}")]
+        if kind == "loss":
+            ys, hs = proto.lst([F(v) for v in case["y"]]), proto.lst([F(v) for v in case["h"]])
+            pre = f"{case['loss']} {case['lo']} {case['hi']}"
+            plan = [("range", f"mom.loss.range {pre}"), ("arr", f"mom.loss.eval {pre} arr {ys} {hs}"),
+                    ("ser", f"mom.loss.eval {pre} ser {ys} {hs}")]
+            if len(case["y"]) >= 2:
+                plan.append(("gamma", f"mom.bgl.gamma {pre} {ys} {proto.strs(case['g'])} {hs}"))
+            return plan
         if kind == "bgl":
             ys, gs, hs = proto.lst([F(v) for v in case["y"]]), proto.strs(case["g"]), proto.lst([F(v) for v in case["h"]])
             return [("index", f"mom.bgl.index {gs}"),
@@ -681,6 +736,62 @@ class CHECK(Check):
                 probs.append(Problem("harness", f"bgl: model {model} vs oracle {want} {mean}"))
         return probs
 
+    def _judge_loss(self, case, o, model):
+        """direct `loss.eval` on numpy arrays and on pandas Series, the loss object's declared range, and gamma (Series
+        path).  Oracle: for min_val <= max_val the clipped square / absolute difference; for every bounds the declared
+        range [loss.min, loss.max] (that is all the property can say when the bounds are inverted)."""
+        probs = []
+        ys, hs = [F(v) for v in case["y"]], [F(v) for v in case["h"]]
+        lo, hi = F(case["lo"]), F(case["hi"])
+        loss = "square" if case["loss"] == "square" else "absolute"
+        where = f"{case['loss']}({lo}, {hi})"
+        dmax = (hi - lo) ** 2 if loss == "square" else abs(hi - lo)
+        if not close(o["min"], 0) or not close(o["max"], dmax) or not close(o["min_val"], lo) or not close(o["max_val"], hi):
+            probs.append(Problem("property", f"{where}: min/max = {o['min']}, {o['max']} (bounds {o['min_val']}, {o['max_val']}), "
+                                             f"documented 0 and {dmax}", "C06.loss_in_declared_range"))
+        for cont in ("arr", "ser"):
+            for i, v in enumerate(o[cont]):
+                if lo <= hi and not close(v, spec_loss(loss, lo, hi, ys[i], hs[i])):
+                    probs.append(Problem("property", f"{where}.eval on {'numpy arrays' if cont == 'arr' else 'pandas Series'}: "
+                                                     f"loss({ys[i]}, {hs[i]}) = {v!r}, clipped {loss} difference "
+                                                     f"{spec_loss(loss, lo, hi, ys[i], hs[i])}", "C06.loss_values"))
+                    break
+                if not (o["min"] - TOL <= v <= o["max"] + TOL):
+                    probs.append(Problem("property", f"{where}.eval({ys[i]}, {hs[i]}) = {v!r} lies outside the loss object's own "
+                                                     f"[min, max] = [{o['min']}, {o['max']}]", "C06.loss_in_declared_range"))
+                    break
+        if "gamma" in o:
+            gs = sorted(set(case["g"]))
+            if o["gamma_index"] != gs:
+                probs.append(Problem("property", f"gamma index {o['gamma_index']} is not the set of groups {gs}", "C06.bgl_gamma"))
+            else:
+                for g, v in zip(gs, o["gamma"]):
+                    idx = [i for i in range(len(ys)) if case["g"][i] == g]
+                    mean_ser = sum(o["ser"][i] for i in idx) / len(idx)
+                    if not close(v, mean_ser, 1e-9 * (1 + abs(mean_ser))):
+                        probs.append(Problem("property", f"BoundedGroupLoss.gamma[{g}] = {v!r} is not the mean {mean_ser!r} of "
+                                                         f"{where}.eval over the group's rows", "C06.bgl_gamma"))
+                        break
+        if model is not None and not probs:
+            mmin, mmax = (proto.p_rat(t) for t in model["range"].split(" "))
+            marr, mser = proto.p_list(model["arr"]), proto.p_list(model["ser"])
+            if (mmin, mmax) != (F(0), dmax) or (lo <= hi and (marr != [spec_loss(loss, lo, hi, y, h) for y, h in zip(ys, hs)]
+                                                             or mser != marr)):
+                probs.append(Problem("harness", f"loss: model {model} vs oracle"))
+            if not close(o["min"], mmin) or not close(o["max"], mmax):
+                probs.append(Problem("correspondence", f"{where}: min/max {o['min']}, {o['max']} vs model {mmin}, {mmax}",
+                                     "LossRange"))
+            for cont, mv, rel in (("arr", marr, "Moments.Loss.eval"), ("ser", mser, "Moments.Loss.evalS")):
+                if len(mv) != len(o[cont]) or any(not close(a, b) for a, b in zip(o[cont], mv)):
+                    probs.append(Problem("correspondence", f"{where}.eval on {cont}: implementation {o[cont][:5]} vs model "
+                                                           f"{[str(v) for v in mv[:5]]}", rel))
+            if "gamma" in o and "gamma" in model:
+                mg = proto.p_list(model["gamma"])
+                if len(mg) != len(o["gamma"]) or any(not close(a, b) for a, b in zip(o["gamma"], mg)):
+                    probs.append(Problem("correspondence", f"{where}: gamma {o['gamma']} vs model {[str(v) for v in mg]}",
+                                         "Moments.bglGamma"))
+        return probs
+
     def _judge_err(self, case, o, model):
         probs = []
         fp, fn = (F(case["fp"]), F(case["fn"])) if case["costs"] == "given" else (F(1), F(1))
@@ -725,6 +836,12 @@ class CHECK(Check):
             if isinstance(o, dict) and isinstance(o.get("metricframe"), list) and hard and (case["rb"] in (None, "1")):
                 tags.append("metricframe-compared")
             nontriv = isinstance(o, dict) and bool(o.get("index"))
+        elif kind == "loss":
+            lo, hi = F(case["lo"]), F(case["hi"])
+            tags += [f"loss={case['loss']}", "bounds=" + ("ordered" if lo < hi else "equal" if lo == hi else "inverted")]
+            if isinstance(o, dict) and "arr" in o and any(abs(a - b) > TOL for a, b in zip(o["arr"], o["ser"])):
+                tags.append("F21-shape(eval differs between ndarray and Series)")
+            nontriv = True
         elif kind in ("bgl", "err"):
             tags.append(f"n={len(case['y'])}")
             if kind == "bgl":
